@@ -24,6 +24,7 @@ import (
 
 	"github.com/prometheus/prometheus/discovery"
 	"github.com/prometheus/prometheus/discovery/targetgroup"
+	"github.com/prometheus/prometheus/util/verifhook"
 
 	"verif/harness/internal/gallina"
 	"verif/harness/internal/gen"
@@ -741,6 +742,136 @@ func runConc(seed uint64, idx int) concOut {
 	return out
 }
 
+// ---------- re-arm race (pause point c47.sender.beforeRearm) ----------
+
+// runRace: real Manager.Run, nobody receiving, so the sender's send attempt fails; at the pause
+// point just before the sender puts the trigger back, a real update of the provider is pushed
+// through its updater (which arms triggerSend), i.e. the 1-slot channel is already full when the
+// sender re-arms. The put-back must not block: once the consumer starts receiving, the fold of
+// everything sent must be delivered and the manager must quiesce. Runs must not overlap (the
+// hook handler is process-global).
+func runRace(seed uint64, idx int) concOut {
+	r := gen.Fork(seed, idx)
+	ctx, cancel := context.WithCancel(context.Background())
+	m, reg := newManager(ctx, time.Duration(5+r.Intn(20))*time.Millisecond)
+	w := &world{seed: seed, cur: map[int]*fakeDisc{}, gens: map[int]int{}}
+	out := concOut{logs: map[int][][]G{}, cfgOf: map[int]int{}, epochOf: map[int]int{}}
+	cfg := []jobCfg{{Job: 1, Cfgs: []cfgEntry{{ID: 1, OK: true}}}}
+	if r.Bool() {
+		cfg = append(cfg, jobCfg{Job: 2, Cfgs: []cfgEntry{{ID: 1, OK: true}}})
+	}
+	if r.Chance(1, 3) {
+		cfg = append(cfg, jobCfg{Job: 3})
+	}
+	out.epochs = [][]jobCfg{cfg}
+	var lmu sync.Mutex
+	var log [][]G
+	seq := 0
+	var dp atomic.Pointer[fakeDisc]
+	push := func() { // one real update through the updater; returns when fully applied and armed
+		k := 1 + r.Intn(2)
+		b := []G{}
+		for i := 0; i < k; i++ {
+			nt := r.Intn(3)
+			b = append(b, G{Src: 100 + r.Intn(3), Gid: 1000 + seq, Nt: nt})
+			seq++
+		}
+		d := dp.Load()
+		d.up <- mkBatch(b)
+		d.up <- nil
+		lmu.Lock()
+		log = append(log, b, []G{})
+		lmu.Unlock()
+	}
+	nRace := 1 + r.Intn(3)
+	var raced atomic.Int32
+	var inHook atomic.Bool
+	verifhook.SetHandler(func(site string, _ int) {
+		if site != "c47.sender.beforeRearm" || dp.Load() == nil || int(raced.Load()) >= nRace {
+			return
+		}
+		inHook.Store(true)
+		push() // the updater arms triggerSend while the sender is between drain and put-back
+		raced.Add(1)
+		inHook.Store(false)
+	})
+	defer verifhook.SetHandler(nil)
+	runDone := make(chan struct{})
+	go func() { m.Run(); close(runDone) }()
+	if err := m.ApplyConfig(w.goCfg(cfg)); err != nil {
+		panic(err)
+	}
+	out.epochIn = append(out.epochIn, w.settle(cfg))
+	dd := w.cur[1]
+	<-dd.ready
+	dp.Store(dd) // from now on the handler injects updates
+	// phase 1: nobody receives; wait until the window has been raced nRace times
+	t0 := time.Now()
+	for int(raced.Load()) < nRace && time.Since(t0) < 5*time.Second {
+		time.Sleep(5 * time.Millisecond)
+	}
+	if int(raced.Load()) < nRace {
+		out.goViol = "pause point c47.sender.beforeRearm not reached"
+	}
+	for inHook.Load() {
+		time.Sleep(time.Millisecond)
+	}
+	logLen := func() int { lmu.Lock(); defer lmu.Unlock(); return len(log) }
+	// phase 2: the consumer shows up
+	ch := m.SyncCh()
+	prevLen := 0
+	quiet := 0
+	deadline := time.Now().Add(10 * time.Second)
+	for out.goViol == "" {
+		if time.Now().After(deadline) {
+			out.goViol = "no quiescence within 10s after the re-arm window was raced (sender stuck?)"
+			break
+		}
+		pre := logLen()
+		select {
+		case mp := <-ch:
+			lo := prevLen - 1
+			if lo < 0 {
+				lo = 0
+			}
+			out.recvs = append(out.recvs, recvT{Elo: 1, Ehi: 1, Lo: map[int]int{1: lo}, Hi: map[int]int{1: logLen()}, Map: viewGroups(mp)})
+			out.received++
+			prevLen = pre
+			quiet = 0
+		case <-time.After(350 * time.Millisecond):
+			if !discovery.VerifTriggerArmed(m) {
+				quiet++
+			} else {
+				quiet = 0
+			}
+		}
+		if quiet >= 3 {
+			break
+		}
+	}
+	verifhook.SetHandler(nil)
+	out.delayed = counterValue(reg, "prometheus_sd_updates_delayed_total")
+	cancel()
+	<-runDone
+	lmu.Lock()
+	out.logs[1] = append([][]G{}, log...)
+	lmu.Unlock()
+	out.cfgOf[1] = 1
+	out.epochOf[1] = 1
+	n := len(out.logs[1])
+	fin := recvT{Elo: 1, Ehi: 1, Lo: map[int]int{1: n}, Hi: map[int]int{1: n}}
+	if len(out.recvs) > 0 {
+		out.final = out.recvs[len(out.recvs)-1].Map
+		fin.Map = out.final
+	} else {
+		// nothing was ever delivered: the exact-bounds check fails unless nothing was to be delivered
+		out.final = []kv{}
+		fin.Map = out.final
+	}
+	out.recvs = append(out.recvs, fin)
+	return out
+}
+
 func (c concOut) term(id int) string {
 	// epochs: index 0 = before any ApplyConfig
 	eps := []string{"[]"}
@@ -922,24 +1053,33 @@ func main() {
 		}(i)
 	}
 	wg.Wait()
-	for i, o := range outs {
+	emitConc := func(o concOut, index int, kind string) {
 		cf.Add(o.term(id))
-		meta.Hit("conc-run")
+		meta.Hit(kind + "-run")
 		if o.delayed > 0 {
-			meta.Hit("conc-send-found-consumer-busy")
+			meta.Hit(kind + "-send-found-consumer-busy")
 		}
 		if len(o.epochs) > 1 {
-			meta.Hit("conc-multiple-reloads")
+			meta.Hit(kind + "-multiple-reloads")
 		}
-		meta.Case(id, concDesc{Kind: "conc", Index: 100000 + i, Epochs: o.epochs, Received: o.received, Delayed: o.delayed, Final: o.final, Shape: "conc-run"})
+		meta.Case(id, concDesc{Kind: kind, Index: index, Epochs: o.epochs, Received: o.received, Delayed: o.delayed, Final: o.final, Shape: kind + "-run"})
 		if o.goViol != "" {
-			meta.GoViol = append(meta.GoViol, gallina.GoViolation{ID: strconv.Itoa(id), Shape: "conc-no-convergence", What: o.goViol})
+			meta.GoViol = append(meta.GoViol, gallina.GoViolation{ID: strconv.Itoa(id), Shape: kind + "-no-convergence", What: o.goViol})
 		}
 		meta.Evaluations++
-		if o.received >= 3 && (o.delayed > 0 || len(o.epochs) > 1) {
+		if o.received >= 3 && (o.delayed > 0 || len(o.epochs) > 1) || kind == "race" && o.received >= 1 {
 			meta.Nontrivial++
 		}
 		id++
+	}
+	for i, o := range outs {
+		emitConc(o, 100000+i, "conc")
+	}
+	// re-arm race runs, strictly one after the other (global hook handler), after the parallel
+	// runs so that those never see a handler
+	nRace := f.Count(4, 40)
+	for i := 0; i < nRace; i++ {
+		emitConc(runRace(f.Seed, 200000+i), 200000+i, "race")
 	}
 	cf.Flush()
 	meta.Write(f.Out)
